@@ -749,7 +749,7 @@ def jobs(tier, seed):
         J.append(dict(kind="corpus", name="corpus:%s:%s:%s" % (cs["ds"], "opt" if cs["optimize"] else "noopt", "+".join(cs["dirs"] or [])), cs=[cs]))
     J.append(dict(kind="corpus", name="corpus:designspaceLib-documents", cs=nomasters))
     njobs = 64 if thorough else 16
-    total = 3840 if thorough else 640
+    total = 15360 if thorough else 640
     for i in range(njobs):
         J.append(dict(kind="generated", name="generated-%d" % i, n=total // njobs, seed=subseed(seed, "gen", i)))
     return J
